@@ -802,7 +802,55 @@ def rule_selfdesc(c, prog, R="C17.selfdesc"):
     c.floor(R, n_sites, 1, "shape-sniffing deserialisation sites in rbx_types")
 
 
+def rule_hooks(c, prog, R="C17.hooks"):
+    """a derived Serialize and a derived Deserialize are inverse by construction; a field hook (`serialize_with`,
+    `deserialize_with`, `with`, `skip_serializing_if`, `getter`) swaps in hand-written code on one side.  The pair
+    stays inverse only when the other side has the matching hook — a hook on one side alone writes what the derived
+    reader does not read back (or the reverse)."""
+    c.rule(R, "derived serde impls of rbx_types types: the workspace functions a derived Serialize impl calls (field hooks such as serialize_with) have a counterpart on the derived Deserialize impl of the same type, and the reverse; a one-sided hook means the written form is not the one the derived counterpart reads")
+    sides = {}
+    for imp in prog.impls:
+        tr = imp.get("trait") or ""
+        if not re.search(r"serde(_core)?::(ser::Serialize|de::Deserialize)", tr) or "derive" not in (imp.get("x") or ""):
+            continue
+        me = imp.get("self") or ""
+        if not me.startswith("rbx_types::") or "::_::" in me or "__" in me.rsplit("::", 1)[-1]:
+            continue
+        side = "ser" if "ser::Serialize" in tr else "de"
+        hooks = set()
+        prefixes = [it["path"] for it in imp["items"]]
+        for path, f in prog.fns.items():
+            if f.body is None or not any(path == p_ or path.startswith(p_ + "::") for p_ in prefixes):
+                continue
+            for x in core.walk_fn(f):
+                if x.get("k") not in ("Call", "MethodCall"):
+                    continue
+                cal = core.callee(x) or ""
+                g = prog.fns.get(cal)
+                if g is None or g.crate not in core.LIB_CRATES or any(cal == p_ or cal.startswith(p_ + "::") for p_ in prefixes):
+                    continue
+                if re.search(r"as serde(_core)?::(ser::Serialize|de::Deserialize)", cal) or re.search(r"::(serialize|deserialize)$", cal) and " as serde" in cal:
+                    continue
+                if "impl serde" in cal or "::_::" in cal:
+                    continue      # other generated serde code
+                hooks.add(cal)
+        sides.setdefault(me, {})[side] = hooks
+    n = 0
+    for me, sd in sorted(sides.items()):
+        if "ser" not in sd or "de" not in sd:
+            continue
+        n += 1
+        inst = f"hooks:{core.short(me)}"
+        if bool(sd["ser"]) != bool(sd["de"]):
+            which, hk = ("Serialize", sorted(sd["ser"])) if sd["ser"] else ("Deserialize", sorted(sd["de"]))
+            c.violation(R, f"one-sided|{core.short(me)}|{which}", f"{me}: the derived {which} impl goes through {', '.join(core.short(h) for h in hk)} (a field hook) while the derived {'Deserialize' if which == 'Serialize' else 'Serialize'} impl of the same type has none: what one side writes is not what the other reads back — values the hook spells differently (omits, rewrites) do not survive serde encodings", prog.fns[hk[0]].sp, instance=inst)
+        else:
+            c.ok(R, inst)
+    c.floor(R, n, 20, "rbx_types types with derived Serialize and Deserialize")
+
+
 def run(c, prog):
+    rule_hooks(c, prog)
     rule_owned(c, prog)
     rule_text(c, prog)
     rule_pair(c, prog)
